@@ -5,6 +5,7 @@ import (
 	"database/sql"
 	"encoding/hex"
 	"fmt"
+	agglayergrpc "github.com/agglayer/aggkit/agglayer/grpc"
 	"math/big"
 	"strings"
 	"time"
@@ -70,6 +71,7 @@ func (k *knobs) tracef(format string, args ...any) {
 type clientWrap struct {
 	*Agglayer
 	k *knobs
+	w *agglayergrpc.AgglayerGRPCClient // the real gRPC client over the model's node-state service (wire.go)
 }
 
 func (c *clientWrap) SendCertificate(ctx context.Context, cert *agglayertypes.Certificate) (common.Hash, error) {
